@@ -84,7 +84,10 @@ type lateOp struct {
 	// noPairs: the operation is enumerated alone with every Compile variant (and drawn in the random
 	// sequences), but not in the ordered pairs of the thorough tier
 	noPairs bool
-	do      func() (runFn, error)
+	// viewOnly: the operation writes to an object that describes the compiled graph (a *GraphInfo) and is
+	// not an argument of anything: the builder must be as untouched afterwards as the runnable
+	viewOnly bool
+	do       func() (runFn, error)
 }
 
 func (o lateOp) String() string { return o.Name + "(" + o.Detail + ")" }
@@ -343,6 +346,7 @@ func (k *optKit) lates(otherNode string) []lateOp {
 	info := k.infoLates()
 	for i := range info {
 		info[i].noPairs = true
+		info[i].viewOnly = !info[i].callerArg
 	}
 	return append(ls, info...)
 }
@@ -1127,7 +1131,7 @@ func (c *checker) checkLate(s lateSeq) {
 		what = "after a successful Compile and nothing but further Compile calls (of the builder itself, of the builders that are its nodes), Compile returned an error"
 	case "modified":
 		sig = "C20/builder-modified-after-compile/" + sc.fe + "/" + res.name
-		what = "after operations on retained objects, Compile with run-time equivalent options succeeds and gives a runnable that behaves differently from the first one: the compiled graph was modified"
+		what = "after operations on retained objects, Compile with run-time equivalent options gives a runnable that behaves differently from the first one (or, after nothing but writes to a kept *GraphInfo, fails): the compiled graph was modified"
 	}
 	c.rep.Violation(sig, fmt.Sprintf("%s\n%s\nscenario %s, first Compile(%s); late operations: %s\nnoticed after operation #%d %s",
 		what, res.detail, sc.name, w.Init, strings.Join(w.Late, " ; "), res.at, w.Late[res.at]), w)
@@ -1182,7 +1186,8 @@ func (c *checker) runLate(s lateSeq, count bool) (*lateResult, *lateWitnessX) {
 	}
 	callerArg := false
 	mutated := false
-	touched := false // something else than Compile calls (of the top-level builder or of a nested one) happened
+	touched := false   // something else than Compile calls (of the top-level builder or of a nested one) happened
+	var views []string // ... except writing to a kept *GraphInfo: these operations were applied
 	for pos, i := range s.idx {
 		op := b.lates[i]
 		var r2 runFn
@@ -1214,6 +1219,24 @@ func (c *checker) runLate(s lateSeq, count bool) (*lateResult, *lateWitnessX) {
 		// of the top-level builder with the options of its first Compile, and the standalone Compile of a
 		// builder that is a node of it, must succeed
 		if !touched && e != nil && (op.nestedCompile || op.compile == initV.name) {
+			// would the Compile calls alone fail as well?
+			var compilesOnly []int
+			for _, j := range s.idx[:pos+1] {
+				if b.lates[j].compile != "" || b.lates[j].nestedCompile {
+					compilesOnly = append(compilesOnly, j)
+				}
+			}
+			if len(views) > 0 && len(compilesOnly) < pos+1 {
+				if r0, _ := c.runLate(lateSeq{sc: s.sc, init: s.init, idx: compilesOnly}, false); r0 != nil && r0.class == "recompile-fails" {
+					views = nil
+				}
+			}
+			if len(views) > 0 {
+				// only a description of the graph was written to: the builder was reached through it
+				w.name = views[0]
+				return &lateResult{class: "modified", at: pos, name: views[0],
+					detail: fmt.Sprintf("%s returned an error after nothing but Compile calls and writes to a kept *GraphInfo (%s): %s", op, strings.Join(views, ", "), firstLine(e.Error()))}, w
+			}
 			w.name = op.Name
 			return &lateResult{class: "recompile-fails", at: pos, name: op.Name,
 				detail: fmt.Sprintf("%s returned an error: %s", op, firstLine(e.Error()))}, w
@@ -1221,7 +1244,10 @@ func (c *checker) runLate(s lateSeq, count bool) (*lateResult, *lateWitnessX) {
 		if !touched && count && (op.nestedCompile || op.compile == initV.name) {
 			rep.Count("late_compile_of_untouched_builders_succeeded", 1)
 		}
-		if op.compile == "" && !op.nestedCompile {
+		switch {
+		case op.viewOnly:
+			views = append(views, op.Name)
+		case op.compile == "" && !op.nestedCompile:
 			touched = true
 		}
 		switch {
